@@ -388,7 +388,10 @@ fn exec_op(pm: &mut ProjectManager, pool: &ThreadPool, root: &Path, hist: &Hist,
         }
         Op::Save(d, v) => {
             hist.begin(d, Some(*v), true);
-            let _ = fs::write(root.join(file_of(d)), text_of(d, *v));
+            // the client replaces the file in one step (a reader never sees a half-written file)
+            let tmp = root.join(format!(".{}.tmp", file_of(d)));
+            let _ = fs::write(&tmp, text_of(d, *v));
+            let _ = fs::rename(&tmp, root.join(file_of(d)));
             let _ = pm.notify_document_saved(&uri_of(root, d), pool);
             hist.end(d);
         }
@@ -704,12 +707,16 @@ fn run_stress(case: &Case, root: &Path, hist: &Arc<Hist>, pool: &Arc<ThreadPool>
     let mut handles = Vec::new();
     let results: Arc<Mutex<Vec<(usize, String, String, Option<String>, usize, usize)>>> = Arc::new(Mutex::new(Vec::new()));
     let live = Arc::new(AtomicUsize::new(case.threads.len() + 1));
+    let mut watch: Vec<(Arc<AtomicUsize>, Arc<AtomicBool>)> = Vec::new();
     {
         let ops = case.main.clone();
         let mut pmc = pm.clone();
         let (root, hist, pool, go, live) = (root.to_path_buf(), hist.clone(), pool.clone(), go.clone(), live.clone());
+        let (tid, fin) = (Arc::new(AtomicUsize::new(0)), Arc::new(AtomicBool::new(false)));
+        watch.push((tid.clone(), fin.clone()));
         handles.push(std::thread::spawn(move || {
-            while !go.load(Ordering::SeqCst) { std::hint::spin_loop(); }
+            tid.store(my_tid() as usize, Ordering::SeqCst);
+            while !go.load(Ordering::SeqCst) { std::thread::yield_now(); }
             let _ = std::panic::catch_unwind(std::panic::AssertUnwindSafe(|| {
                 for (i, op) in ops.iter().enumerate() {
                     // spread the ops over the lifetime of the requests
@@ -717,6 +724,7 @@ fn run_stress(case: &Case, root: &Path, hist: &Arc<Hist>, pool: &Arc<ThreadPool>
                     exec_op(&mut pmc, &pool, &root, &hist, op);
                 }
             }));
+            fin.store(true, Ordering::SeqCst);
             live.fetch_sub(1, Ordering::SeqCst);
         }));
     }
@@ -724,8 +732,11 @@ fn run_stress(case: &Case, root: &Path, hist: &Arc<Hist>, pool: &Arc<ThreadPool>
         let mut pmc = pm.clone();
         let (root, hist, go, live, results) = (root.to_path_buf(), hist.clone(), go.clone(), live.clone(), results.clone());
         let (id, kind, doc) = (*id, kind.clone(), doc.clone());
+        let (tid, fin) = (Arc::new(AtomicUsize::new(0)), Arc::new(AtomicBool::new(false)));
+        watch.push((tid.clone(), fin.clone()));
         handles.push(std::thread::spawn(move || {
-            while !go.load(Ordering::SeqCst) { std::hint::spin_loop(); }
+            tid.store(my_tid() as usize, Ordering::SeqCst);
+            while !go.load(Ordering::SeqCst) { std::thread::yield_now(); }
             for _ in 0..rounds {
                 let t = touched(&kind, &doc);
                 let lo = Hist::count(&hist.completed, &t);
@@ -733,17 +744,44 @@ fn run_stress(case: &Case, root: &Path, hist: &Arc<Hist>, pool: &Arc<ThreadPool>
                 let hi = Hist::count(&hist.started, &t);
                 results.lock().unwrap().push((id, kind.clone(), doc.clone(), Some(r.unwrap_or_else(|_| "panic".into())), lo, hi));
             }
+            fin.store(true, Ordering::SeqCst);
             live.fetch_sub(1, Ordering::SeqCst);
         }));
     }
     go.store(true, Ordering::SeqCst);
-    // the watchdog of the parent process handles a hang; here only a generous in-process deadline
-    let until = Instant::now() + Duration::from_secs(25);
-    while live.load(Ordering::SeqCst) > 0 && Instant::now() < until {
+    // a deadlock is called only on definite evidence: every unfinished thread sleeps in a futex wait and
+    // none of them has been scheduled for a whole second
+    let t0 = Instant::now();
+    let mut blocked_since: Option<(Instant, Vec<u64>)> = None;
+    let mut verdict = "ok";
+    while live.load(Ordering::SeqCst) > 0 {
         std::thread::sleep(Duration::from_millis(2));
+        if t0.elapsed() < Duration::from_millis(300) {
+            continue;
+        }
+        let mut all_blocked = true;
+        let mut sig: Vec<u64> = Vec::new();
+        for (tid, fin) in &watch {
+            if fin.load(Ordering::SeqCst) { continue; }
+            match os_state(tid.load(Ordering::SeqCst) as u32) {
+                Some((true, nv)) => sig.push(nv),
+                _ => { all_blocked = false; break; }
+            }
+        }
+        if all_blocked && !sig.is_empty() {
+            match &blocked_since {
+                Some((since, old)) if *old == sig => {
+                    if since.elapsed() > Duration::from_millis(1000) { verdict = "deadlock"; break; }
+                }
+                _ => blocked_since = Some((Instant::now(), sig)),
+            }
+        } else {
+            blocked_since = None;
+        }
+        if t0.elapsed() > Duration::from_secs(60) { verdict = "slow"; break; }
     }
-    if live.load(Ordering::SeqCst) > 0 {
-        return Outcome { line: format!("stress fin=deadlock live={}", live.load(Ordering::SeqCst)), must_exit: true };
+    if verdict != "ok" {
+        return Outcome { line: format!("stress fin={} live={}", verdict, live.load(Ordering::SeqCst)), must_exit: true };
     }
     for h in handles {
         let _ = h.join();
